@@ -86,7 +86,8 @@ ImplTimelineLive(rep, ref, e, o) ==
     IN  TimelineFrom(rep, RefDurTc(rep, ref) - MediaDur(rep), ImplTsbd(e, o) * rep.ts,
                      0, w.start, w.mod)
 
-ImplTimelineVod(rep, ref) == TimelineFrom(rep, 0, RefDurTc(rep, ref), 0, 0, 1)
+\* static mode: never list more than the stored track (fix: C06)
+ImplTimelineVod(rep, ref) == TimelineFrom(rep, 0, Min(RefDurTc(rep, ref), MediaDur(rep)), 0, 0, 1)
 
 \* calculate_first_and_last_segment_number
 ImplLast(rep, e)      == rep.sn + (TdToTc(e, rep.ts) \div rep.segdur)
